@@ -83,6 +83,15 @@ def direct(t):
         N = [12, 6, 24, 40][t.choose(4, "N")]
         n_ops = 4 + t.choose(28, "n ops")
         sig = []
+        if t.choose(10, "many ranges") == 9:
+            # scale: several hundred separate ranges tracked at once (every second unit of a long file lost), then the
+            # ordinary operation history on top of them
+            k_many = [300, 520][t.choose(2, "how many ranges")]
+            for j in range(k_many):
+                trackers[0].add_lost_segment((2 * j + 50, 2 * j + 51))
+            w.probe("C18.many_ranges")
+            w.log.append(f"# {k_many} ranges added to T0: {len(trackers[0].lost_segments)} tracked")
+            N = 2 * k_many + 60
         for i in range(n_ops):
             tr = trackers[t.choose(2, "which tracker") if two else 0]
             op = t.weighted([6, 6, 2, 1], "op")
